@@ -204,6 +204,9 @@ func (n *Node) TakeLog() []Served {
 	return l
 }
 
+// Inflight is the number of requests being served right now.
+func (n *Node) Inflight() int { return int(atomic.LoadInt32(&n.inflight)) }
+
 func (n *Node) MaxInflight() int  { return int(atomic.LoadInt32(&n.maxInflight)) }
 func (n *Node) Requests() int64   { return atomic.LoadInt64(&n.requests) }
 func (n *Node) ResetMaxInflight() { atomic.StoreInt32(&n.maxInflight, 0) }
